@@ -44,12 +44,14 @@ type captured struct {
 }
 
 type ledger struct {
-	cell     hx.Cell
-	seen     []seen
-	script   []string
-	dialled  map[string]bool // "A->B": A told to B's true address/identity
-	captured []captured
-	sentBy   map[string][]string // node -> payloads it told
+	cell    hx.Cell
+	seen    []seen
+	script  []string
+	dialled map[string]bool // "A->B": A told to B's true address/identity
+	// takenOver: number of messages seen when B's address changed hands (-1: it never did)
+	takenOver int
+	captured  []captured
+	sentBy    map[string][]string // node -> payloads it told
 }
 
 func led(x *vrt.Exec) *ledger { return x.Data.(*ledger) }
@@ -57,11 +59,22 @@ func led(x *vrt.Exec) *ledger { return x.Data.(*ledger) }
 type cfg struct {
 	whitelist string // all | only-b | none
 	depth     int
+	// takeover: before the explored phase B tells A, then B goes away and a node holding E's
+	// key comes to live at B's transport address (port reuse, NAT rebinding)
+	takeover bool
 }
 
 func (c cfg) name() string {
+	if c.takeover {
+		return fmt.Sprintf("p2pkeswarm-whitelist-%s-depth%d-after-address-takeover", c.whitelist, c.depth)
+	}
 	return fmt.Sprintf("p2pkeswarm-whitelist-%s-depth%d", c.whitelist, c.depth)
 }
+
+// noClose keeps a transport endpoint alive when the secure swarm on top of it is closed.
+type noClose struct{ p2p.Swarm[Addr] }
+
+func (noClose) Close() error { return nil }
 
 type node struct {
 	name  string
@@ -85,7 +98,7 @@ func settle(x *vrt.Exec) {
 func scenario(c cfg) *explore.Scenario {
 	sc := &explore.Scenario{Name: c.name(), PB: 0, DB: 1, NoCache: true}
 	sc.Setup = func(x *vrt.Exec) {
-		x.Data = &ledger{dialled: map[string]bool{}, sentBy: map[string][]string{}}
+		x.Data = &ledger{dialled: map[string]bool{}, sentBy: map[string][]string{}, takenOver: -1}
 		x.MaxSteps = 400000
 		x.SchedDeterministic = true
 		x.AutoTimers = false
@@ -107,7 +120,7 @@ func scenario(c cfg) *explore.Scenario {
 		mk := func(name string, keyIdx int, opts ...p2pkeswarm.Option[Addr]) *node {
 			in := realm.NewSwarm()
 			n := &node{name: name, inner: in, addr: in.LocalAddr(), id: ids[name]}
-			n.sw = p2pkeswarm.New[Addr](in, stacks.TestKeyN(keyIdx), opts...)
+			n.sw = p2pkeswarm.New[Addr](noClose{in}, stacks.TestKeyN(keyIdx), opts...)
 			nodes[name] = n
 			return n
 		}
@@ -126,27 +139,35 @@ func scenario(c cfg) *explore.Scenario {
 		raw := realm.NewSwarm() // the attacker's second foothold on the transport
 		bg := context.Background()
 		rctx, stop := hx.WithCancel(bg)
+		var inners []p2p.Swarm[Addr]
+		for _, n := range []*node{a, b, e} {
+			inners = append(inners, n.inner)
+		}
+		var startRecv func(n *node)
 		for _, n := range []*node{a, b, e} {
 			n := n
-			vrt.Go("recv-"+n.name, func() {
-				for {
-					if err := n.sw.Receive(rctx, func(m p2p.Message[KAddr]) {
-						s := seen{Node: n.name, SrcID: m.Src.ID, SrcN: m.Src.Addr.N, Payload: string(m.Payload)}
-						func() {
-							defer func() {
-								if r := recover(); r != nil {
-									s.LookErr = fmt.Sprint(r)
-								}
+			startRecv = func(n *node) {
+				vrt.Go("recv-"+n.name, func() {
+					for {
+						if err := n.sw.Receive(rctx, func(m p2p.Message[KAddr]) {
+							s := seen{Node: n.name, SrcID: m.Src.ID, SrcN: m.Src.Addr.N, Payload: string(m.Payload)}
+							func() {
+								defer func() {
+									if r := recover(); r != nil {
+										s.LookErr = fmt.Sprint(r)
+									}
+								}()
+								k := p2p.LookupPublicKeyInHandler[KAddr, x509.PublicKey](n.sw, m.Src)
+								s.LookID = p2pkeswarm.DefaultFingerprinter(&k)
 							}()
-							k := p2p.LookupPublicKeyInHandler[KAddr, x509.PublicKey](n.sw, m.Src)
-							s.LookID = p2pkeswarm.DefaultFingerprinter(&k)
-						}()
-						l.seen = append(l.seen, s)
-					}); err != nil {
-						return
+							l.seen = append(l.seen, s)
+						}); err != nil {
+							return
+						}
 					}
-				}
-			})
+				})
+			}
+			startRecv(n)
 		}
 		settle(x)
 		tell := func(from *node, id p2p.PeerID, at Addr, payload string, label string) {
@@ -160,6 +181,18 @@ func scenario(c cfg) *explore.Scenario {
 			cf()
 			settle(x)
 		}
+		var e2 *node // E's key at B's transport address, after the takeover
+		if c.takeover {
+			tell(b, a.id, a.addr, "B-to-A", "B tells A")
+			l.script = append(l.script, "B goes away; a node with E's key now listens at addrB")
+			b.sw.Close()
+			settle(x)
+			l.takenOver = len(l.seen)
+			e2 = &node{name: "E", inner: b.inner, addr: b.addr, id: ids["E"]}
+			e2.sw = p2pkeswarm.New[Addr](noClose{b.inner}, stacks.TestKeyN(2))
+			startRecv(e2)
+			settle(x)
+		}
 		for step := 0; step < c.depth; step++ {
 			type act struct {
 				cost uint8
@@ -170,8 +203,12 @@ func scenario(c cfg) *explore.Scenario {
 				{0, func() { tell(a, b.id, e.addr, "secret-for-B", "A tells B@addrE") }},
 				{0, func() { tell(a, e.id, b.addr, "secret-for-E", "A tells E@addrB") }},
 				{0, func() { l.dialled["A->E"] = true; tell(a, e.id, e.addr, "A-to-E", "A tells E@addrE") }},
-				{0, func() { tell(b, a.id, a.addr, "B-to-A", "B tells A") }},
 				{0, func() { tell(e, a.id, a.addr, "E-to-A", "E tells A") }},
+			}
+			if e2 == nil {
+				menu = append(menu, act{0, func() { tell(b, a.id, a.addr, "B-to-A", "B tells A") }})
+			} else {
+				menu = append(menu, act{0, func() { tell(e2, a.id, a.addr, "E-at-addrB-to-A", "E (at addrB) tells A") }})
 			}
 			// replays of captured traffic, from the raw foothold and from E's own address
 			n := len(l.captured)
@@ -206,6 +243,12 @@ func scenario(c cfg) *explore.Scenario {
 		for _, n := range []*node{a, b, e} {
 			n.sw.Close()
 		}
+		if e2 != nil {
+			e2.sw.Close()
+		}
+		for _, in := range inners {
+			in.Close()
+		}
 		raw.Close()
 		settle(x)
 	}
@@ -231,8 +274,11 @@ func scenario(c cfg) *explore.Scenario {
 			}
 			return "raw"
 		}
-		for _, s := range l.seen {
+		for i, s := range l.seen {
 			owner := ownerOfAddr(s.SrcN)
+			if s.SrcN == 1 && l.takenOver >= 0 && i >= l.takenOver {
+				owner = "E" // B's transport address changed hands
+			}
 			if owner == "raw" {
 				add("message-from-keyless-address", fmt.Sprintf("%s received %q from the raw address, which never completed a handshake", s.Node, s.Payload))
 				continue
@@ -253,6 +299,9 @@ func scenario(c cfg) *explore.Scenario {
 			}
 			if !ok {
 				add("payload-not-sent-by-attributed-peer", fmt.Sprintf("%s received %q attributed to %s, who never told it", s.Node, s.Payload, owner))
+			}
+			if strings.HasPrefix(s.Payload, "A-to-") && s.Node != strings.TrimPrefix(s.Payload, "A-to-") {
+				add("payload-delivered-to-wrong-identity", fmt.Sprintf("%s (without the addressed identity's key) received %q", s.Node, s.Payload))
 			}
 			if strings.HasPrefix(s.Payload, "secret-for-") && s.Node != strings.TrimPrefix(s.Payload, "secret-for-") {
 				add("payload-delivered-to-wrong-identity", fmt.Sprintf("%s (without the addressed identity's key) received %q", s.Node, s.Payload))
@@ -289,6 +338,9 @@ func main() {
 	var scs []*explore.Scenario
 	for _, wl := range []string{"all", "only-b", "none"} {
 		scs = append(scs, scenario(cfg{whitelist: wl, depth: depth}))
+	}
+	for _, wl := range []string{"all", "only-b"} {
+		scs = append(scs, scenario(cfg{whitelist: wl, depth: depth, takeover: true}))
 	}
 	netrows.Run(run)
 	explore.Main(run, scs, evid.Pick(run, 120*time.Second, 15*time.Minute))
